@@ -1602,15 +1602,24 @@ def classify_recursion(f, call, idx=None):
                         isinstance(s_.value.value, int) and s_.value.value >= (2 if isinstance(s_.op, ast.Mult) else 1):
                     grown = s_.target.attr
             if grown is not None:
+                # the growing field, under its own name or through a read-only property that returns it
+                spell = {f"self.{grown}"}
+                if f.cls is not None:
+                    for fs_ in f.cls.methods.values():
+                        for g_ in fs_:
+                            if "property" in g_.decorators:
+                                b_ = [x for x in g_.node.body if not (isinstance(x, ast.Expr) and isinstance(x.value, ast.Constant))]
+                                if len(b_) == 1 and isinstance(b_[0], ast.Return) and b_[0].value is not None and ast.unparse(b_[0].value) == f"self.{grown}":
+                                    spell.add(f"self.{g_.name}")
                 for s_ in block[:block.index(stmt)]:
                     if isinstance(s_, ast.If) and any(isinstance(x, ast.Raise) for x in s_.body):
                         t = s_.test
                         if isinstance(t, ast.Compare) and len(t.ops) == 1 and isinstance(t.ops[0], (ast.GtE, ast.Gt)) and \
-                                ast.unparse(t.left) == f"self.{grown}" and f"self.{grown}" not in ast.unparse(t.comparators[0]):
+                                ast.unparse(t.left) in spell and not any(sp in ast.unparse(t.comparators[0]) for sp in spell):
                             bounded = True
                         # the same comparison read from the other side: <bound> <= self.size
                         if isinstance(t, ast.Compare) and len(t.ops) == 1 and isinstance(t.ops[0], (ast.LtE, ast.Lt)) and \
-                                ast.unparse(t.comparators[0]) == f"self.{grown}" and f"self.{grown}" not in ast.unparse(t.left):
+                                ast.unparse(t.comparators[0]) in spell and not any(sp in ast.unparse(t.left) for sp in spell):
                             bounded = True
         if bounded:
             return "ok", f"bounded variant: self.{grown} strictly grows before the call and `self.{grown} >= <bound>` raises first"
